@@ -293,6 +293,9 @@ def run_check(pid, tier, replay_path=None):
         return 2
 
     core.import_blackbird()
+    import implcov
+    pkg = os.path.join(core.REPO, "blackbird_python", "blackbird")
+    cov_on = implcov.start(pkg)
 
     # 3. replay mode
     if replay_path is not None:
@@ -363,6 +366,8 @@ def run_check(pid, tier, replay_path=None):
         print("VIOLATION property=%s replay=%s no-failing-input-found" % (pid, path))
         rc = 1
     wall = time.time() - t0
+    if cov_on:
+        ctx.extra["impl_line_coverage"] = implcov.report(pkg)
     write_evidence(pid, tier, seed, aud, ctx, wall, len(ctx.violations),
                    "cd lean && lake build && lake env lean Audit/%s.lean" % pid)
     log("%s %s: %d evaluations, %d distinct non-trivial, %d ood, %d disagreements, %d violations, "
